@@ -148,6 +148,17 @@ pub fn representatives() -> Vec<Case> {
             out.push(Case::single(KIND, place(ctx, lit)));
         }
     }
+    // (6) the same in a file that is not the root of its tree (the report cites file #1)
+    for lit in ["f\"{{€\\q\"", "f\"}}a\\€ and {1}\"", "f\"{x}: {{}}€\\q\"", "\"😀\\u{110000}\"", "'\\€'"] {
+        out.push(Case {
+            kind: KIND.into(),
+            files: vec![
+                super::CaseFile { name: "pkg.roto".into(), module: "pkg".into(), parent: None, src: "fn main() -> String { é.f(1) }\n".into() },
+                super::CaseFile { name: "é.roto".into(), module: "é".into(), parent: Some(0), src: place(0, lit).replace("fn main", "fn f") },
+            ],
+            expect_cycle: None,
+        });
+    }
     out
 }
 
